@@ -19,14 +19,17 @@ CONSTANT MaxDepth
 \* cofdef: contentOf of an undefined name with a default block and data; partialvar: the partial's data is a map the caller
 \* keeps in a variable and uses again afterwards
 \* for2: two loops one after the other in one scope, the body reading x and y_i before it binds them
-Kinds == {"for", "for2", "fn", "fn2", "partial", "partialvar", "cof", "cof2", "cofdef", "blkown", "foriter", "cofdeep"}
+Kinds == {"for", "for2", "fn", "fn2", "partial", "partialvar", "cof", "cof2", "cofdef", "blkown", "foriter", "cofdeep", "blktry"}
 \* bind: the construct itself binds x; let: it binds an unrelated name and its body lets x;
 \* bare: it binds nothing at all (function without parameters, partial / contentOf without data) and its body lets x
 Modes == {"bind", "let", "bare"}
 
-VARIABLES fs, res       \* frames: sequence of [k, m]
-vars == <<fs, res>>
+\* xn: the outer name every level binds again -- "x", or the name of a built-in helper (a template's own binding of such a name
+\* is an ordinary variable: it hides the helper in every scope below it, however deep)
+VARIABLES fs, res, xn       \* frames: sequence of [k, m]
+vars == <<fs, res, xn>>
 
+XC == IF xn = "x" THEN <<"x">> ELSE <<"c", "a", "p", "i", "t", "a", "l", "i", "z", "e">>
 D(i) == Digit(i)
 XV(i) == <<"x", D(i)>>                      \* the value x is bound to at level i
 YN(i) == "y" \o D(i)
@@ -35,18 +38,18 @@ ON(i) == "o" \o D(i)
 PN(i) == <<"p", D(i)>>                      \* partial name (characters)
 CN(i) == <<"c", D(i)>>                      \* contentFor name
 
-Probe == <<Text(<<"[">>), Emit(Id("x")), Text(<<",">>), Emit(Id("t")), Text(<<"]">>)>>
+Probe == <<Text(<<"[">>), Emit(Id(xn)), Text(<<",">>), Emit(Id("t")), Text(<<"]">>)>>
 \* after construct j (seen from the enclosing level): x is the enclosing level's again, y_j is gone
-ProbeAfter(j) == IF j <= Len(fs) THEN <<Text(<<"(">>), Emit(Id("x")), Emit(IfElse(Id(YN(j)), <<Text(<<"L">>)>>, <<Text(<<"-">>)>>)), Text(<<")">>)>> ELSE <<>>
+ProbeAfter(j) == IF j <= Len(fs) THEN <<Text(<<"(">>), Emit(Id(xn)), Emit(IfElse(Id(YN(j)), <<Text(<<"L">>)>>, <<Text(<<"-">>)>>)), Text(<<")">>)>> ELSE <<>>
 
 RECURSIVE Body(_), Construct(_)
-Body(i) == (IF fs[i].m \in {"let", "bare"} \/ fs[i].k = "foriter" THEN <<Let("x", Str(XV(i)))>> ELSE <<>>)
+Body(i) == (IF fs[i].m \in {"let", "bare"} \/ fs[i].k = "foriter" THEN <<Let(xn, Str(XV(i)))>> ELSE <<>>)
            \o <<Let(YN(i), Str(<<"y", D(i)>>))>> \o Probe
            \o (IF i < Len(fs) THEN Construct(i + 1) ELSE <<Text(<<"*">>)>>)
            \o ProbeAfter(i + 1)
 
 \* the name the construct itself binds: x in mode "bind", an unrelated u in mode "let"
-BN(i) == IF fs[i].m = "bind" THEN "x" ELSE "u"
+BN(i) == IF fs[i].m = "bind" THEN xn ELSE "u"
 BV(i) == IF fs[i].m = "bind" THEN Str(XV(i)) ELSE Str(<<"u">>)
 
 Bare(i) == fs[i].m = "bare"
@@ -54,17 +57,17 @@ Construct(i) ==
   CASE fs[i].k = "for"     -> <<Emit(For("", BN(i), Arr(<<BV(i)>>), Body(i)))>>
     [] fs[i].k = "fn"      -> IF Bare(i) THEN <<Let(FNm(i), FnLit(<<>>, Body(i))), Emit(Call(FNm(i), <<>>))>>
                               ELSE <<Let(FNm(i), FnLit(<<BN(i)>>, Body(i))), Emit(Call(FNm(i), <<BV(i)>>))>>
-    [] fs[i].k = "for2"    -> LET pre == <<Text(<<"<">>), Emit(Id("x")), Emit(IfElse(Id(YN(i)), <<Text(<<"L">>)>>, <<Text(<<"-">>)>>)), Text(<<">">>)>>
+    [] fs[i].k = "for2"    -> LET pre == <<Text(<<"<">>), Emit(Id(xn)), Emit(IfElse(Id(YN(i)), <<Text(<<"L">>)>>, <<Text(<<"-">>)>>)), Text(<<">">>)>>
                                   lp  == Emit(For("", BN(i), Arr(<<BV(i)>>), pre \o Body(i))) IN
                               <<lp, Text(<<"/">>), lp>>
-    [] fs[i].k = "fn2"     -> LET pre == <<Text(<<"<">>), Emit(Id("x")), Emit(IfElse(Id(YN(i)), <<Text(<<"L">>)>>, <<Text(<<"-">>)>>)), Text(<<">">>)>> IN
+    [] fs[i].k = "fn2"     -> LET pre == <<Text(<<"<">>), Emit(Id(xn)), Emit(IfElse(Id(YN(i)), <<Text(<<"L">>)>>, <<Text(<<"-">>)>>)), Text(<<">">>)>> IN
                               IF Bare(i) THEN <<Let(FNm(i), FnLit(<<>>, pre \o Body(i))), Emit(Call(FNm(i), <<>>)), Text(<<"/">>), Emit(Call(FNm(i), <<>>))>>
                               ELSE <<Let(FNm(i), FnLit(<<BN(i)>>, pre \o Body(i))), Emit(Call(FNm(i), <<BV(i)>>)), Text(<<"/">>), Emit(Call(FNm(i), <<BV(i)>>))>>
     [] fs[i].k = "partial" -> IF Bare(i) THEN <<Emit(Call("partial", <<Str(PN(i))>>))>>
                               ELSE <<Emit(Call("partial", <<Str(PN(i)), Hash(<<BN(i)>>, <<BV(i)>>)>>))>>
     [] fs[i].k = "partialvar" -> LET dat == IF Bare(i) THEN Hash(<<>>, <<>>) ELSE Hash(<<BN(i)>>, <<BV(i)>>) IN
                               <<Let(ON(i), dat), Emit(Call("partial", <<Str(PN(i)), Id(ON(i))>>)),
-                                Text(<<"#">>), Emit(Call("len", <<Id(ON(i))>>)), Emit(Idx(Id(ON(i)), Str(<<"y", D(i)>>))), Emit(Idx(Id(ON(i)), Str(<<"x">>))),
+                                Text(<<"#">>), Emit(Call("len", <<Id(ON(i))>>)), Emit(Idx(Id(ON(i)), Str(<<"y", D(i)>>))), Emit(Idx(Id(ON(i)), Str(XC))),
                                 Emit(Call("partial", <<Str(PN(i)), Id(ON(i))>>))>>
     [] fs[i].k = "cofdef"  -> <<Emit(CallB("contentOf", <<Str(CN(i))>> \o (IF Bare(i) THEN <<>> ELSE <<Hash(<<BN(i), "w">>, <<BV(i), Str(<<"w">>)>>)>>), Body(i))),
                                 Emit(IfElse(Id("w"), <<Text(<<"L">>)>>, <<Text(<<"-">>)>>))>>
@@ -81,26 +84,29 @@ Construct(i) ==
     \* after contentOf returns, the loop body is still in the loop's scope: its own x and the loop variable
     [] fs[i].k = "cofdeep" -> <<Code(CallB("contentFor", <<Str(CN(i))>>, Body(i))),
                                 Emit(For("", "u", Arr(<<Str(<<"u", "1">>), Str(<<"u", "2">>)>>),
-                                         <<Let("x", Str(<<"x", "n">>)),
+                                         <<Let(xn, Str(<<"x", "n">>)),
                                            Emit(IF Bare(i) THEN Call("contentOf", <<Str(CN(i))>>) ELSE Call("contentOf", <<Str(CN(i)), Hash(<<BN(i)>>, <<BV(i)>>)>>)),
-                                           Text(<<"LBR">>), Emit(Id("x")), Emit(Id("u")), Text(<<"RBR">>)>>))>>
+                                           Text(<<"LBR">>), Emit(Id(xn)), Emit(Id("u")), Text(<<"RBR">>)>>))>>
     [] fs[i].k = "blkown"  -> <<Emit(CallB("blkown", <<IF Bare(i) THEN Hash(<<>>, <<>>) ELSE Hash(<<BN(i)>>, <<BV(i)>>)>>, Body(i)))>>
+
+    \* a block helper with its own context that swallows the failure of its block: what follows is in the caller's scope again
+    [] fs[i].k = "blktry"  -> <<Emit(CallB("blktry", <<IF Bare(i) THEN Hash(<<>>, <<>>) ELSE Hash(<<BN(i)>>, <<BV(i)>>)>>, Body(i) \o <<Emit(Id("nope"))>>))>>
 
 \* t is not bound by the template: it is a value of the context.Context the root context was built
 \* around (plush.NewContextWithContext), visible from every scope like any other outer name
 Data == [t |-> S(<<"t", "0">>)]
-Prog == <<Let("x", Str(<<"x", "0">>))>> \o Probe
+Prog == <<Let(xn, Str(<<"x", "0">>))>> \o Probe
         \o (IF Len(fs) >= 1 THEN Construct(1) ELSE <<>>) \o ProbeAfter(1) \o Probe
 PartIdx == {i \in 1..Len(fs) : fs[i].k \in {"partial", "partialvar"}}
 Parts == [nm \in {JoinChars(PN(i)) : i \in PartIdx} |-> Body(CHOOSE i \in PartIdx : JoinChars(PN(i)) = nm)]
 
-Init == fs = <<>> /\ res = [k |-> "none"]
+Init == fs = <<>> /\ res = [k |-> "none"] /\ xn \in {"x", "capitalize"}
 AddFrame == /\ res.k = "none" /\ Len(fs) < MaxDepth
             /\ \E k \in Kinds, m \in Modes : (k = "foriter" => m = "let") /\ fs' = Append(fs, [k |-> k, m |-> m])
-            /\ UNCHANGED res
+            /\ UNCHANGED <<res, xn>>
 Finish == /\ res.k = "none" /\ Len(fs) >= 1
           /\ res' = Run(Prog, WithHelpers(Data), Parts, "")
-          /\ UNCHANGED fs
+          /\ UNCHANGED <<fs, xn>>
 Next == AddFrame \/ Finish
 Spec == Init /\ [][Next]_vars
 
@@ -108,7 +114,7 @@ Spec == Init /\ [][Next]_vars
 ScopeTheorem == res.k # "none" =>
    /\ res.k = "out"
    /\ res.depth = 1                                                    \* pushes and pops balance
-   /\ res.top["x"] = S(<<"x", "0">>) /\ res.top["t"] = S(<<"t", "0">>)   \* outer bindings framed
+   /\ res.top[xn] = S(<<"x", "0">>) /\ res.top["t"] = S(<<"t", "0">>)   \* outer bindings framed
    /\ \A i \in 1..MaxDepth : YN(i) \notin DOMAIN res.top               \* nothing leaked
 
 \* the declarative expectation of the probes: x reads x_i inside level i and x_{i-1} after it
@@ -118,7 +124,7 @@ RECURSIVE Inside(_)
 ProbeText(i) == <<"[">> \o XV(i) \o <<",", "t", "0", "]">>
 AfterText(j) == IF j <= Len(fs) THEN <<"(">> \o XV(j - 1) \o <<"-", ")">> ELSE <<>>
 Inside(i) == ProbeText(i) \o (IF i < Len(fs) THEN Inside(i + 1) ELSE <<"*">>) \o AfterText(i + 1)
-ProbeTheorem == (res.k = "out" /\ \A i \in 1..Len(fs) : fs[i].k \notin {"cof2", "cofdeep", "fn2", "for2", "partialvar", "cofdef"}) => PiecesText(res.pieces) = ProbeText(0) \o Inside(1) \o AfterText(1) \o ProbeText(0)
+ProbeTheorem == (res.k = "out" /\ \A i \in 1..Len(fs) : fs[i].k \notin {"cof2", "cofdeep", "fn2", "for2", "partialvar", "cofdef", "blktry"}) => PiecesText(res.pieces) = ProbeText(0) \o Inside(1) \o AfterText(1) \o ProbeText(0)
 
 Expect(r) == CASE r.k = "out" -> [k |-> "out", pieces |-> r.pieces, log |-> r.log]
                [] r.k = "err" -> [k |-> "err", w |-> r.w, log |-> r.log]
@@ -129,10 +135,10 @@ ShapeOf(i) == IF i > Len(fs) THEN "" ELSE fs[i].k \o "/" \o fs[i].m \o (IF i < L
 EmitOnce ==
             PrintT("CASE " \o ToJson([gen |-> "GenScopes", src |-> Unparse(Prog), data |-> Data, wrapped |-> <<"t">>,
                                        parts |-> [nm \in DOMAIN Parts |-> Unparse(Parts[nm])],
-                                       shape |-> ShapeOf(1), expect |-> Expect(res)]))
+                                       shape |-> ShapeOf(1) \o (IF xn = "x" THEN "" ELSE ":" \o xn), expect |-> Expect(res)]))
 EmitTwice ==
             PrintT("CASE " \o ToJson([gen |-> "GenScopes", src |-> Unparse(Prog \o Prog), data |-> Data, wrapped |-> <<"t">>,
                                        parts |-> [nm \in DOMAIN Parts |-> Unparse(Parts[nm])],
-                                       shape |-> ShapeOf(1) \o ":twice", expect |-> Expect(Run(Prog \o Prog, WithHelpers(Data), Parts, ""))]))
+                                       shape |-> ShapeOf(1) \o (IF xn = "x" THEN "" ELSE ":" \o xn) \o ":twice", expect |-> Expect(Run(Prog \o Prog, WithHelpers(Data), Parts, ""))]))
 EmitCase == res.k = "none" \/ (EmitOnce /\ EmitTwice)
 =============================================================================
